@@ -2,6 +2,7 @@
    fixed-size chain and the global-cost primitive). *)
 From Coq Require Import ZArith List Arith Bool PrimFloat.
 From Knee Require Import Num NumFloat NpList Model.Mapping Model.RdpFixed Model.RdpFixedSpec Run.JudgeC05.
+From Knee Require Export Model.RdpFixed.
 Import ListNotations.
 
 Definition gtab_t := list (list nat * float).
@@ -17,16 +18,17 @@ Inductive query :=
 
 Inductive case :=
   (* chain = [rdp_fixed(points, k, distance, order)[0] for k in 2..n] as returned by the implementation;
+     dt / ct / rt = distance, chord and residual tables: priorities are DERIVED from them (JudgeC05.prio_fn);
      gt = evaluation.compute_global_cost(points, S, cost) with a fresh cache, for every member S of the chain *)
-  | CG (n : nat) (is_r2 : bool) (dt : dtab_t) (pt : ptab_t) (gt : gtab_t) (chain : list (list nat)) (qs : list query).
+  | CG (n : nat) (is_r2 : bool) (ord : order) (dt : dtab_t) (ct rt : ptab_t) (gt : gtab_t) (chain : list (list nat)) (qs : list query).
 
 Section Q.
-  Variables (n : nat) (is_r2 : bool) (dt : dtab_t) (pt : ptab_t) (gt : gtab_t).
+  Variables (n : nat) (is_r2 : bool) (ord : order) (dt : dtab_t) (ct rt : ptab_t) (gt : gtab_t).
   Definition m_query (q : query) : out_t :=
     match q with
-    | QGrdp t _ => @grdp FloatNum n f_eps (dist_of dt) (prio_of pt) (gcost_of gt) is_r2 t n
-    | QMp t m _ => @mp_grdp FloatNum n f_eps (dist_of dt) (prio_of pt) (gcost_of gt) is_r2 t n m
-    | QMin ts m _ => @min_point_rdp FloatNum n f_eps (dist_of dt) (prio_of pt) (gcost_of gt) n ts m
+    | QGrdp t _ => @grdp FloatNum n f_eps (dist_of dt) (prio_fn ord dt ct rt) (gcost_of gt) is_r2 t n
+    | QMp t m _ => @mp_grdp FloatNum n f_eps (dist_of dt) (prio_fn ord dt ct rt) (gcost_of gt) is_r2 t n m
+    | QMin ts m _ => @min_point_rdp FloatNum n f_eps (dist_of dt) (prio_fn ord dt ct rt) (gcost_of gt) n ts m
     end.
   Definition q_out (q : query) : out_t := match q with QGrdp _ o | QMp _ _ o | QMin _ _ o => o end.
   Definition q_dom (q : query) : bool :=
@@ -43,8 +45,8 @@ Section Q.
     end.
 End Q.
 
-Definition model_sets (n : nat) (dt : dtab_t) (pt : ptab_t) : list (list nat) :=
-  map (fun k => red_of (@rdp_fixed FloatNum n f_eps (dist_of dt) (prio_of pt) n k)) (seq 2 (n - 1)).
+Definition model_sets (n : nat) (ord : order) (dt : dtab_t) (ct rt : ptab_t) : list (list nat) :=
+  map (fun k => red_of (@rdp_fixed FloatNum n f_eps (dist_of dt) (prio_fn ord dt ct rt) n k)) (seq 2 (n - 1)).
 
 (* result code = 100 * agree + holds.
    agree: 0 every query: model output = implementation output; 1 differs; 4 oracle entry missing for the model;
@@ -53,14 +55,14 @@ Definition model_sets (n : nat) (dt : dtab_t) (pt : ptab_t) : list (list nat) :=
           8 global cost missing for a member of the implementation's chain, 9 the implementation's chain is malformed *)
 Definition judge (c : case) : Z :=
   match c with
-  | CG n is_r2 dt pt gt chain qs =>
+  | CG n is_r2 ord dt ct rt gt chain qs =>
       if negb ((2 <=? n) && forallb (q_dom is_r2) qs) then 600%Z else
-      let ms := model_sets n dt pt in
-      let ordered := forallb (fun e => negb (f_isnan (snd e))) pt in
+      let ms := model_sets n ord dt ct rt in
+      let ordered := prios_ordered n ord dt ct rt in
       let a := if negb (shapes_ok dt) then 1%Z
-               else if negb (segs_present n dt pt ms && forallb (has_set gt) ms) then 4%Z
+               else if negb (segs_present n ord dt ct rt ms && forallb (has_set gt) ms) then 4%Z
                else if negb ordered then 5%Z
-               else if forallb (fun q => out_eqb (m_query n is_r2 dt pt gt q) (q_out q)) qs then 0%Z else 1%Z in
+               else if forallb (fun q => out_eqb (m_query n is_r2 ord dt ct rt gt q) (q_out q)) qs then 0%Z else 1%Z in
       let h := if negb ((length chain =? n - 1) &&
                         forallb (fun kS => (length (snd kS) =? fst kS)) (combine (seq 2 (n - 1)) chain)) then 9%Z
                else if negb (forallb (has_set gt) chain) then 8%Z
@@ -69,4 +71,4 @@ Definition judge (c : case) : Z :=
   end.
 
 Definition show (c : case) : list out_t :=
-  match c with CG n is_r2 dt pt gt chain qs => map (m_query n is_r2 dt pt gt) qs end.
+  match c with CG n is_r2 ord dt ct rt gt chain qs => map (m_query n is_r2 ord dt ct rt gt) qs end.
